@@ -80,6 +80,17 @@ ReqMenu(U) ==
 ReqCentric(U, k) == {Cfg1(U, NonEmpty(q), s) : q \in ConnLists(U, k), s \in ResMenu(U)}
 ResCentric(U, k) == {Cfg1(U, q, NonEmpty(s)) : q \in ReqMenu(U), s \in ConnLists(U, k)}
 
+\* request direction with a fixed entry at the first processor of U and at most k further connections; the response
+\* direction lets the walk resume behind the Gen (so that siblings of an answering processor are covered with 3 processors)
+NonEntry(U) == SelectSeq(Cands(U), LAMBDA c : c.f.k # "S")
+RestLists(U, k) ==
+    LET cand == NonEntry(U)
+        lists == {[i \in 1..Len(Asc(I)) |-> cand[Asc(I)[i]]] : I \in KSub(Len(cand), k)}
+    IN UNION {lists, {Rev(s) : s \in {x \in lists : OrderMatters(x)}}}
+EntryFam(U, k) ==
+    {Cfg1(U, <<C(S0, PE(U[1].key, ""))>> \o q, s) : q \in RestLists(U, k),
+        s \in {<<C(PE("g", ""), PE("p", "")), C(PE("p", ""), S1)>>, <<C(S0, PE("p", "")), C(PE("p", ""), S1), C(PE("g", ""), S1)>>}}
+
 \* two flows, one cross-flow reference (and the malformed variants: self reference, mutual reference, dangling name)
 Ua == <<Pr("p", "Plain"), Pr("c", "Cond")>>
 Ub == <<Pr("q", "Plain"), Pr("h", "Gen")>>
@@ -117,7 +128,8 @@ Bad ==
 
 \* (an operator with a parameter, so that TLC evaluates only the space that is used)
 ConfigSpace(tier) ==
-    IF tier = "quick" THEN UNION {ReqCentric(Uq, 3), ResCentric(Uq, 3), SelfRef, Bad}
+    IF tier = "nv" THEN UNION {EntryFam(Ut, 2), ResCentric(Uq, 2), TwoFlows(2), SelfRef}
+    ELSE IF tier = "quick" THEN UNION {ReqCentric(Uq, 3), ResCentric(Uq, 3), EntryFam(Ut, 3), TwoFlows(1), SelfRef, Bad}
     ELSE IF tier = "mid" THEN UNION {ReqCentric(Ut, 3), ResCentric(Ut, 3), TwoFlows(2), SelfRef, Bad}
     ELSE UNION {ReqCentric(Ut, 4), ResCentric(Ut, 4), ReqCentric(Ul, 3), TwoFlows(3), SelfRef, Bad}
 =============================================================================
